@@ -1,5 +1,7 @@
 """C15, stage `depload`: k dependants of ONE cache-hit dependency race on loading its outputs (load_outputs=minimal),
-without and WITH a cache fault (the blobs of the outputs m..n-1 are lost: the dependency has to be re-made by a dependant).
+without and WITH a cache fault of either kind: the blobs of the outputs m..n-1 are lost (the restore fails), or the dependency's
+target RESULT cannot be read when the dependants look it up (result_fails) -- in both cases the dependency has to be re-made by
+ONE dependant, under the per-dependency lock.
 Deterministic tie between coq/theories/DepLoad.v and the real Executor.LoadDependencyOutputs / Registry.LoadOutputs:
 harness/go/depload runs a schedule (which dependant starts when, which held blob read is released when, when a run of the
 dependency's command that waits at its gate goes on) on the real code, waiting for quiescence after every token; the
@@ -13,8 +15,8 @@ import ast, itertools, json, os, re, threading, time
 import vlib
 
 MAXN, MAXK = 3, 3
-VARIANTS = ("VCorrect", "VFlagEarly", "VRequestedOnce", "VNoOuterLock")
-NAMED = [  # (name, n, k, schedule, lowest lost blob (n = none))
+VARIANTS = ("VCorrect", "VFlagEarly", "VRequestedOnce", "VNoOuterLock", "VLookupBeforeLock")
+NAMED = [  # (name, n, k, schedule, lowest lost blob (n = none)[, 1 = the lookups of the dependency's target result fail])
     ("second dependant arrives while the first is inside the restore", 1, 2, "s0,s1,g", 1),
     ("second dependant arrives before the first has started", 1, 2, "s1,s0,g", 1),
     ("second dependant arrives after the restore", 1, 2, "s0,g,s1", 1),
@@ -29,6 +31,14 @@ NAMED = [  # (name, n, k, schedule, lowest lost blob (n = none))
     ("blob 1 of 2 is lost, second dependant arrives during the restore of output 0", 2, 2, "s0,s1,g,r", 1),
     ("both blobs are lost, three dependants at once", 2, 3, "s0,s1,s2,r", 0),
     ("blob 2 of 3 is lost, dependants arrive one by one while the first restores and re-runs", 3, 3, "s0,G,s1,g,s2,r", 2),
+    # the OTHER fault path of LoadDependencyOutputs: the dependency's target result cannot be read ("We cannot even get the target
+    # cache: re-run immediately"); every dependant is started before the gate of the re-run is opened
+    ("the result lookup fails, both dependants are started before the re-run is let go", 1, 2, "s0,s1,r", 1, 1),
+    ("the result lookup fails, two outputs, both dependants are started before the re-run is let go", 2, 2, "s1,s0,r", 2, 1),
+    ("the result lookup fails, three dependants are started before the re-run is let go", 1, 3, "s0,s1,s2,r", 1, 1),
+    ("the result lookup fails, two outputs, three dependants are started before the re-run is let go", 2, 3, "s2,s0,s1,r", 2, 1),
+    ("the result lookup fails, the second dependant arrives after the re-run", 1, 2, "s0,r,s1", 1, 1),
+    ("the result lookup fails AND blob 1 of 2 is lost, both dependants are started before the re-run is let go", 2, 2, "s0,s1,r", 1, 1),
 ]
 
 
@@ -42,7 +52,7 @@ def small_schedules():
                     toks, it = [], iter(order)
                     for i in range(n + k):
                         toks.append("g" if i in gpos else "s%d" % next(it))
-                    res.append((n, k, ",".join(toks), "", n))
+                    res.append((n, k, ",".join(toks), "", n, 0))
     return res
 
 
@@ -58,7 +68,21 @@ def small_fault_schedules():
                         toks, it = [], iter(order)
                         for i in range(m + 1 + k):
                             toks.append(("r" if i == rpos else "g") if i in gpos else "s%d" % next(it))
-                        res.append((n, k, ",".join(toks), "", m))
+                        res.append((n, k, ",".join(toks), "", m, 0))
+    return res
+
+
+def small_result_fault_schedules():
+    """The lookups of the dependency's target result fail (n = 1, 2; no blob lost): every interleaving of the k <= 3 starts (in
+    every order) with ONE `r` (the re-run is let go)."""
+    res = []
+    for n in (1, 2):
+        for k in range(1, 4):
+            for order in itertools.permutations(range(k)):
+                for rpos in range(k + 1):
+                    toks = ["s%d" % t for t in order]
+                    toks.insert(rpos, "r")
+                    res.append((n, k, ",".join(toks), "", n, 1))
     return res
 
 
@@ -73,7 +97,11 @@ def random_schedules(r, count):
         if n > 0 and r.chance(2, 5):      # a cache fault: the blobs lost..n-1 are gone, some dependant has to re-make the dependency
             lost = r.below(n)
             toks += ["r"] * (1 + r.below(2))
-        res.append((n, k, ",".join(r.shuffle(toks)), "".join(r.choice(["s", "m"]) for _ in range(n)), lost))
+        rf = 0
+        if n > 0 and r.chance(2, 7):      # the other cache fault: the dependency's target result cannot be read by the dependants
+            rf = 1
+            toks += ["r"] * (1 + r.below(2))
+        res.append((n, k, ",".join(r.shuffle(toks)), "".join(r.choice(["s", "m"]) for _ in range(n)), lost, rf))
     return res
 
 
@@ -95,7 +123,7 @@ def parse_trace(line):
 
 
 def run_harness(binary, cases, jobs=4):
-    """cases: [(n, k, schedule, init, lowest lost blob)] -> parsed traces, same order; `jobs` harness processes side by side."""
+    """cases: [(n, k, schedule, init, lowest lost blob, result_fails)] -> parsed traces, same order; `jobs` harness processes side by side."""
     chunks = [cases[i::jobs] for i in range(jobs)] if len(cases) >= 4 * jobs else [cases]
     outs, errs = [None] * len(chunks), []
 
@@ -103,7 +131,7 @@ def run_harness(binary, cases, jobs=4):
         d = os.path.join(vlib.scratch(), "depload-%d" % i)
         os.makedirs(d, exist_ok=True)
         try:
-            rc, lines, err = vlib.run_lines(binary, ["case\t%d\t%d\t%s\t%s\t%d" % c for c in chunks[i]] + ["caps"], timeout=1500, args=(d,))
+            rc, lines, err = vlib.run_lines(binary, ["case\t%d\t%d\t%s\t%s\t%d\t%d" % c for c in chunks[i]] + ["caps"], timeout=1500, args=(d,))
             if rc != 0 or len(lines) != len(chunks[i]) + 1:
                 errs.append("harness exit %s, %d answers for %d cases: %s" % (rc, len(lines), len(chunks[i]), err[-800:]))
             outs[i] = lines
@@ -148,13 +176,15 @@ def model_eval(cases, traces):
            "Definition A := TStart.", "Definition B := TRelease.", "Definition C := TGo."]
     names = []
     for c0 in range(0, len(cases), 400):
-        rows = ["(%d, %d, %d, [%s])" % (cases[i][0], cases[i][1], cases[i][4], "; ".join(model_tokens(cases[i][0], traces[i])))
+        rows = ["(%d, %d, %d, %s, [%s])" % (cases[i][0], cases[i][1], cases[i][4], "true" if cases[i][5] else "false",
+                                            "; ".join(model_tokens(cases[i][0], traces[i])))
                 for i in range(c0, min(c0 + 400, len(cases)))]
         names.append("cs%d" % c0)
-        src.append("Definition cs%d : list (nat * nat * nat * list token) := [%s]." % (c0, ";\n ".join(rows)))
-    src.append("Definition ev (v : variant) (asc : bool) (cs : list (nat * nat * nat * list token)) :=\n"
-               "  map (fun c => match c with (n, k, m, toks) => replay v asc n k m toks end) cs.")
-    keys = [("VCorrect", True), ("VCorrect", False), ("VFlagEarly", True), ("VRequestedOnce", True), ("VNoOuterLock", True)]
+        src.append("Definition cs%d : list (nat * nat * nat * bool * list token) := [%s]." % (c0, ";\n ".join(rows)))
+    src.append("Definition ev (v : variant) (asc : bool) (cs : list (nat * nat * nat * bool * list token)) :=\n"
+               "  map (fun c => match c with (n, k, m, rf, toks) => replay v asc n k m rf toks end) cs.")
+    keys = [("VCorrect", True), ("VCorrect", False), ("VFlagEarly", True), ("VRequestedOnce", True), ("VNoOuterLock", True),
+            ("VLookupBeforeLock", True)]
     for v, asc in keys:
         for nm in names:
             src.append("Eval vm_compute in ev %s %s %s." % (v, "true" if asc else "false", nm))
@@ -280,7 +310,8 @@ HOW = ("schedule tokens: s<t> = dependant t is handed to a worker (Executor.Load
        "index); r = the oldest run of the dependency's own command (a real shell command: half-writes every output, waits at a FIFO, "
        "writes every output completely) that waits at its gate goes on; after every token the harness waits until every goroutine is "
        "blocked and every such run sits at its gate.  lost_blobs_from = m: the blobs of the outputs m..n-1 are deleted from the cache, a "
-       "dependant has to re-make the dependency.  trace windows: <token>/<reads still held>/<runs at their gate>/<events>, events: tget = "
+       "dependant has to re-make the dependency.  result_fails = 1: every read of the dependency's target RESULT fails while the schedule "
+       "runs (event tfail), a dependant that cannot read it re-runs the dependency at once.  trace windows: <token>/<reads still held>/<runs at their gate>/<events>, events: tget = "
        "target result read, get:<i> = read of blob i reached the cache, lost:<i> = read of the lost blob i failed, run / ran = a run of "
        "the dependency's command started / ended, cmd:<t>:<c|s|m|t per output> = command of t ran and saw current|stale|missing|torn; "
        "end/<pending>/<verdict>/<bytes cached after a re-run>.  init: s = workspace copy stale, m = missing.  "
@@ -288,14 +319,18 @@ HOW = ("schedule tokens: s<t> = dependant t is handed to a worker (Executor.Load
 
 
 def record(case, tr, model, idx, name=None):
-    n, k, sched, init, lost = case
+    n, k, sched, init, lost, rf = case
     return {"stage": "depload", "description": name or "generated schedule", "outputs_of_dependency": n, "dependants": k,
-            "schedule": sched, "init": init or "s" * n, "lost_blobs_from": lost,
+            "schedule": sched, "init": init or "s" * n, "lost_blobs_from": lost, "result_fails": rf,
             "trace": ";".join("%s/%s/%d/%s" % (w["tok"], "+".join(map(str, w["held"])) or "-", w["gate"], ",".join(w["events"]) or "-")
                               for w in tr.get("windows", [])) +
                      ";end/%s/%s/%s" % ("+".join(map(str, tr.get("pending", []))) or "-", tr.get("verdict", tr.get("error")), tr.get("cached", "-")),
             "model_windows": {"%s%s" % (v, "" if asc else " (highest task first)"): model[(v, asc)][idx] for (v, asc) in model} if model else None,
             "how": HOW}
+
+
+def faults(n, lost, rf):
+    return (", blobs %s lost" % list(range(lost, n)) if lost < n else "") + (", every lookup of the dependency's target result fails" if rf else "")
 
 
 def stage(out, tier, only=None):
@@ -308,13 +343,14 @@ def stage(out, tier, only=None):
         out.cov["depload"] = {"available": False}
         return None
     t_build = time.time() - t0
-    named = [(n, k, s, "", m) for (_, n, k, s, m) in NAMED]
+    named = [(x[1], x[2], x[3], "", x[4], x[5] if len(x) > 5 else 0) for x in NAMED]
     names = {i: NAMED[i][0] for i in range(len(NAMED))}
     if only is not None:
         cases, names = list(only), {}
     else:
         r = vlib.Rng(vlib.seed() * 104729 + 1515)
-        cases = named + small_schedules() + small_fault_schedules() + random_schedules(r, 60 if tier == "quick" else 2000)
+        cases = (named + small_schedules() + small_fault_schedules() + small_result_fault_schedules() +
+                 random_schedules(r, 60 if tier == "quick" else 2000))
     t1 = time.time()
     traces, cap = run_harness(binary, cases)
     t_impl = time.time() - t1
@@ -325,7 +361,7 @@ def stage(out, tier, only=None):
     t_model = time.time() - t1
     bad_oracle, bad_model, nondet = [], [], 0
     stats = {"arrived_during_restore": 0, "arrived_during_rerun": 0, "blocked_on_lock": 0, "fast_path": 0, "flag_seen_after_waiting": 0,
-             "fault_schedules": 0, "reruns": 0, "windows": 0, "commands": 0}
+             "fault_schedules": 0, "result_fault_schedules": 0, "result_lookups_failed": 0, "reruns": 0, "windows": 0, "commands": 0}
     for i, (case, tr) in enumerate(zip(cases, traces)):
         n, k = case[0], case[1]
         o = oracle(n, k, tr)
@@ -342,11 +378,13 @@ def stage(out, tier, only=None):
             bad_model.append((i, d + ("; the trace is exactly what the model variant %s (a seeded order / the order before the repair of C15-F1) does" % "/".join(why) if why else "")))
         prev_held, prev_gate = [], 0
         stats["fault_schedules"] += 1 if case[4] < n else 0
+        stats["result_fault_schedules"] += 1 if case[5] else 0
         for w in tr["windows"]:
             stats["windows"] += 1
             cm = [e for e in w["events"] if e.startswith("cmd:")]
             stats["commands"] += len(cm)
             stats["reruns"] += w["events"].count("run")
+            stats["result_lookups_failed"] += w["events"].count("tfail")
             if w["tok"].startswith("s"):
                 if prev_held:
                     stats["arrived_during_restore"] += 1
@@ -354,7 +392,7 @@ def stage(out, tier, only=None):
                     stats["arrived_during_rerun"] += 1
                 if (prev_held or prev_gate) and not cm:
                     stats["blocked_on_lock"] += 1      # waits for the per-dependency lock (before the repair: for the registry's)
-                if "tget" not in w["events"] and cm:
+                if "tget" not in w["events"] and "tfail" not in w["events"] and cm:
                     stats["fast_path"] += 1
             elif len(cm) > 1:
                 stats["flag_seen_after_waiting"] += len(cm) - 1
@@ -368,9 +406,9 @@ def stage(out, tier, only=None):
     listed = {f["class"]: f for f in vlib.known_findings("C15")}.get(RERUN_CLASS)
     reported = 0
     for i, o in sorted(bad_oracle, key=key):
-        n, k, sched, init, lost = cases[i]
+        n, k, sched, init, lost, rf = cases[i]
         what = "concurrent dependency loading (stage depload, n=%d outputs, k=%d dependants%s, schedule %s): %s%s" % (
-            n, k, ", blobs %s lost" % list(range(lost, n)) if lost < n else "", sched, o, ("; against DepLoad.v: " + diffs[i]) if i in diffs else "")
+            n, k, faults(n, lost, rf), sched, o, ("; against DepLoad.v: " + diffs[i]) if i in diffs else "")
         if listed and o.startswith(RERUN_MARK):
             out.known(listed["id"], what)
         elif reported < 2:
@@ -378,14 +416,15 @@ def stage(out, tier, only=None):
             out.violation(what, record(cases[i], traces[i], model if i in pos else None, pos.get(i), names.get(i)))
     failed = {i for i, _ in bad_oracle}
     for i, d in [x for x in sorted(bad_model, key=key) if x[0] not in failed][:2]:
-        n, k, sched, init, lost = cases[i]
+        n, k, sched, init, lost, rf = cases[i]
         out.violation("concurrent dependency loading (stage depload, n=%d outputs, k=%d dependants%s, schedule %s): the real code leaves the "
-                      "traces DepLoad.v allows: %s" % (n, k, ", blobs %s lost" % list(range(lost, n)) if lost < n else "", sched, d),
+                      "traces DepLoad.v allows: %s" % (n, k, faults(n, lost, rf), sched, d),
                       record(cases[i], traces[i], model, pos[i], names.get(i)))
     out.cov["depload"] = {
-        "available": True, "schedules": len(cases), "distinct_schedules": len({(c[0], c[1], c[2], c[4]) for c in cases}),
+        "available": True, "schedules": len(cases), "distinct_schedules": len({(c[0], c[1], c[2], c[4], c[5]) for c in cases}),
         "named": len(named) if only is None else 0, "exhaustive_small": "every interleaving of k<=%d starts with n<=%d releases; with the "
-        "blobs m..n-1 lost (n<=2): every interleaving of k<=3 starts, the m releases and one go of the re-run" % (MAXK, MAXN),
+        "blobs m..n-1 lost (n<=2): every interleaving of k<=3 starts, the m releases and one go of the re-run; with the lookups of the "
+        "dependency's target result failing (n<=2): every interleaving of k<=3 starts and one go of the re-run" % (MAXK, MAXN),
         "oracle_failures": len(bad_oracle), "model_mismatches": len(bad_model), "model_schedule_dependent": nondet,
         "restore_pool_size": cap, **stats,
         "seconds": {"harness_build": round(t_build, 1), "implementation": round(t_impl, 1), "coqc": round(t_model, 1)},
@@ -398,9 +437,10 @@ def stage(out, tier, only=None):
 
 
 def replay(out, rp):
-    case = (rp["outputs_of_dependency"], rp["dependants"], rp["schedule"], rp.get("init", ""), rp.get("lost_blobs_from", rp["outputs_of_dependency"]))
-    print("stage depload: %d outputs, %d dependants, schedule %s, workspace copies %s, lost blobs %s" % (
-        case[0], case[1], case[2], case[3] or "all stale", list(range(case[4], case[0])) or "none"))
+    case = (rp["outputs_of_dependency"], rp["dependants"], rp["schedule"], rp.get("init", ""), rp.get("lost_blobs_from", rp["outputs_of_dependency"]),
+            1 if rp.get("result_fails") else 0)
+    print("stage depload: %d outputs, %d dependants, schedule %s, workspace copies %s, lost blobs %s, lookups of the dependency's target result %s" % (
+        case[0], case[1], case[2], case[3] or "all stale", list(range(case[4], case[0])) or "none", "FAIL" if case[5] else "succeed"))
     print("recorded trace : " + rp["trace"])
     res = stage(out, "quick", only=[case])
     if res is None:
